@@ -125,6 +125,21 @@ pub fn run(ctx: &mut Ctx) {
         if rng.bool(0.2) && loosen(&mut pl, &mut rng) {
             ctx.bump("instances_with_loose_constraints");
         }
+        // a slice with one hugely NEGATIVE right-hand side in a nonnegative row (a.x <= -1e21 ... -1e30): not an
+        // infinite bound, a hard constraint that data of ordinary size cannot meet.  Nothing is expected of such a
+        // run except what C01 says: IF it ends Solved, the documented test holds on the user's data (the planted
+        // pair is void, so the sandwich is skipped)
+        let mut hostile_rhs = false;
+        if rng.bool(0.06) {
+            use vkit::cones::{cone_ranges, ConeT};
+            let rows: Vec<usize> = pl.problem.cones.iter().zip(cone_ranges(&pl.problem.cones)).filter(|(c, _)| matches!(c, ConeT::NonnegativeConeT(_))).flat_map(|(_, r)| r).collect();
+            if !rows.is_empty() {
+                let i = *rng.choose(&rows);
+                pl.problem.b[i] = -(10f64.powf(rng.range(21.0, 30.0)));
+                hostile_rhs = true;
+                ctx.bump("instances_with_a_hugely_negative_right_hand_side");
+            }
+        }
         let st = gen::random_settings(&mut rng, ctx.flavour != "miri");
         let p = &pl.problem;
         let res = match problem::run(p, &st) {
@@ -172,10 +187,10 @@ pub fn run(ctx: &mut Ctx) {
         let cone_slack = 1e-12 * (ev.norms * nz0 + ev.normz * pl.s0.iter().map(|v| v * v).sum::<f64>().sqrt());
         let lo = pl.d0 - ev.rp_norm * nz0 - cone_slack - ev.slack_obj - 1e-9 * pl.d0.abs().max(1.0) * 1e-3;
         let hi = pl.p0 + ev.rd_norm * nx0 + cone_slack + ev.slack_obj + 1e-9 * pl.p0.abs().max(1.0) * 1e-3;
-        if !(ev.p_obj >= lo) {
+        if !hostile_rhs && !(ev.p_obj >= lo) {
             fails.push(("sandwich_primal_below_planted_dual".into(), json!({"p_obj": ev.p_obj, "planted_d0": pl.d0, "lower": lo})));
         }
-        if !(ev.d_obj <= hi) {
+        if !hostile_rhs && !(ev.d_obj <= hi) {
             fails.push(("sandwich_dual_above_planted_primal".into(), json!({"d_obj": ev.d_obj, "planted_p0": pl.p0, "upper": hi})));
         }
         ctx.observe_max("res_p_over_tol", ev.res_p / st.tol_feas);
